@@ -327,7 +327,8 @@ pub fn random_response(rng: &mut Rng, body_max: usize, allow_close: bool, tag: &
     head.fields = random_fields(rng, 6, tag);
     if is_redirect_status(head.status) && rng.chance(5, 6) {
         let at = rng.usize_in(0, head.fields.len());
-        head.fields.insert(at, Field::new("Location", b"/next"));
+        // (now and then a value that is not text: the exchange itself is unaffected, only following fails)
+        head.fields.insert(at, Field::new("Location", if rng.chance(1, 8) { &b"/n\xe9xt"[..] } else { &b"/next"[..] }));
     }
     if rng.chance(1, 5) {
         let at = rng.usize_in(0, head.fields.len());
